@@ -1,17 +1,24 @@
-(** Model of the boundary generation in parser.go: reconstructPartDFS
+(** Model of the boundary generation in parser.go (as of fix C02-2):
       subtype := strings.TrimPrefix(strings.ToLower(contentType), "multipart/")
       subtype  = strings.ToUpper(subtype[:1]) + subtype[1:]
-      boundary := fmt.Sprintf("----=_Part_%s_%d", subtype, time.Now().UnixNano())
-    and of the Content-Type line written for a container. [clock] is the value
-    time.Now().UnixNano() returned at that moment. *)
+      boundary := partBoundary(subtype, messageID, node.Part["id"])
+               =  fmt.Sprintf("----=_Part_%s_%d_%d", subtype, messageID, partID)
+    and of the Content-Type line written for a container.  The boundary is a
+    function of the stored rows only: no clock is read. *)
 From Coq Require Import String Ascii List Bool Arith NArith ZArith.
 From Raven Require Import Base.GoStr Base.GoStrMime.
 Import ListNotations.
 
-Definition gen_boundary (content_type : str) (clock : Z) : str :=
+Definition gen_boundary (content_type : str) (message_id part_id : Z) : str :=
+  let sub := trim_prefix (to_lower content_type) (S_ "multipart/") in
+  let sub' := match sub with [] => [] | c :: r => upper_c c :: r end in
+  S_ "----=_Part_" ++ sub' ++ S_ "_" ++ itoa message_id ++ S_ "_" ++ itoa part_id.
+
+Definition container_ct_line (content_type : str) (message_id part_id : Z) : str :=
+  S_ "Content-Type: " ++ content_type ++ S_ "; boundary=""" ++ gen_boundary content_type message_id part_id ++ S_ """" ++ crlf.
+
+(** the boundary the code took before the fix: [clock] = time.Now().UnixNano() *)
+Definition old_gen_boundary (content_type : str) (clock : Z) : str :=
   let sub := trim_prefix (to_lower content_type) (S_ "multipart/") in
   let sub' := match sub with [] => [] | c :: r => upper_c c :: r end in
   S_ "----=_Part_" ++ sub' ++ S_ "_" ++ itoa clock.
-
-Definition container_ct_line (content_type : str) (clock : Z) : str :=
-  S_ "Content-Type: " ++ content_type ++ S_ "; boundary=""" ++ gen_boundary content_type clock ++ S_ """" ++ crlf.
